@@ -511,6 +511,10 @@ func main() {
 		budget = 12 * time.Minute
 	}
 	done := 0
+	// the random phase gets its own slice of time on top of the grids (quick: 25 s)
+	if !c.Thorough() {
+		budget = time.Since(t0) + 25*time.Second
+	}
 	for i := 0; i < n && time.Since(t0) < budget; i++ {
 		var s stmt
 		if i%5 == 4 {
